@@ -75,6 +75,24 @@ CHECKS = {
     'C20': ('model-based PBT over stream histories (create / clone / drop / incoming / poll) under generated schedules and small queues',
             'Exploration over histories: per-stream model queues vs what each stream yields; shared subscriptions survive the drop of one stream.',
             'Trusted: scheduler; streams are kept polled while messages are taken in (the property\'s proviso).', '6, 7/C20'),
+    'C24': ('model-based PBT: bounded exhaustive histories + random long histories of at/remove against a set model, observed by lookup, method calls and introspection',
+            'Exploration, exhaustive within the stated bound (all histories of up to 3/4 operations over 6 paths x 3 interfaces with all 18 pairs looked up after every step), plus random histories to 40 operations with calls and introspection through a fake peer.',
+            'Trusted: the set model; fake peer and scheduler. Intermediate nodes without interfaces are not part of the compared set.', '7/C24'),
+    'C25': ('model-based PBT over histories: a client folds GetManagedObjects + InterfacesAdded/Removed and is compared with the model after every step',
+            'Exploration over histories under one or two (disjoint) managers with a Ping barrier after every step; folded view == model objects with current property values.',
+            'Trusted: same-connection ordering makes the Ping reply a barrier for the signals before it. Nested managers are not generated.', '7/C25'),
+    'C29': ('schedule-exploring PBT of call bursts against handlers that yield / wait on gates',
+            'Exploration over schedules: with spawn = false the start/end log must be strictly serial in arrival order; every call gets exactly one reply.',
+            'Trusted: harness scheduler (one executor task per step), gates opened only at quiescence.', '6, 7/C29'),
+    'C30': ('schedule-exploring PBT of re-entrant handlers and of calls arriving right after on-demand server creation; hang = quiescence',
+            'Exploration over schedules: handlers that add/remove objects and emit signals (methods, getters, setters; spawn on/off) and calls fed 0..7 steps after at() returned; every call must be answered before the system comes to rest.',
+            'Trusted: quiescence detection of the harness scheduler (all actors pending, no wake-up pending). Known finding: call lost right after on-demand creation.', '6, 7/C30'),
+    'C38': ('fault enumeration: EOF / I/O error injected at every inbound byte position and at every write call of scripted sessions, plus random sessions and schedules',
+            'Fault enumeration: every fault point of 6/40 fixed sessions (all byte positions x {EOF, error}, all write calls) and random further sessions; pending calls error out, streams yield exactly the completed messages then end, later work fails promptly, no panic.',
+            'Trusted: scripted socket + scheduler; a write fault is modelled as the transport failing in both directions.', '7/C38'),
+    'C39': ('schedule-exploring PBT over handle sets and drop orders; gated handlers for graceful shutdown',
+            'Exploration: socket halves dropped iff the last of a generated set of handles (clones, streams, proxies, signal streams; with/without object server) is dropped; graceful_shutdown pending while handlers are gated, complete (replies written, transport closed) afterwards.',
+            'Trusted: Drop of the scripted socket halves is what the peer would see as the transport closing; the harness ticker stands in for the connection\'s executor thread.', '6, 7/C39'),
 }
 
 NOT_YET = {}
